@@ -692,7 +692,7 @@ func c04Batch(c *h.Ctx) {
 
 // ---- Rust interop vectors as independent encodings ----------------------------------------------
 func c04Vectors(c *h.Ctx) {
-	raw, err := os.ReadFile("/repo/tokens/batched/batched-issuance-test-vectors-rust.json")
+	raw, err := os.ReadFile(repoDir() + "/tokens/batched/batched-issuance-test-vectors-rust.json")
 	if err != nil {
 		c.Notes["rust_vectors"] = "not found"
 		return
